@@ -128,7 +128,56 @@ def valgrind(drv, runs=150):
     return 2 if bad else 0
 
 
+def seeded(drv):
+    """sensitivity: every seeded change under seeded/ is applied to the repository in turn and the check that
+    is recorded as catching it must raise a replayable violation; the repository is restored each time"""
+    import json
+    import glob
+    repo = drv.REPO
+    if subprocess.run("git status --porcelain -- src", shell=True, cwd=repo, stdout=subprocess.PIPE).stdout.strip():
+        print("[seeded] %s has local changes; refusing" % repo)
+        return 2
+    only = os.environ.get("VERIF_SEEDED", "")
+    missed = []
+    t0 = time.time()
+    for d in sorted(glob.glob(os.path.join(drv.VERIF, "seeded", "*"))):
+        name = os.path.basename(d)
+        if only and only not in name:
+            continue
+        meta = json.load(open(os.path.join(d, "meta.json")))
+        checks = meta.get("detected_by") or [meta["property"]]
+        c = meta["property"] if meta["property"] in checks else checks[0]
+        ev = os.path.join(drv.VERIF, "evidence", c + ".json")
+        saved = open(ev).read() if os.path.exists(ev) else None
+        r = subprocess.run(["git", "apply", os.path.join(d, "patch.diff")], cwd=repo, stdout=subprocess.PIPE, stderr=subprocess.STDOUT)
+        if r.returncode != 0:
+            print("[seeded] %s: patch no longer applies (%s)" % (name, r.stdout.decode()[:100].strip()))
+            missed.append(name)
+            continue
+        try:
+            r = subprocess.run([os.path.join(drv.VERIF, "bin/check"), c, "--tier", "quick"], cwd=drv.VERIF,
+                               stdout=subprocess.PIPE, stderr=subprocess.STDOUT)
+            out = r.stdout.decode("latin-1")
+            viol = [l for l in out.splitlines() if l.startswith("VIOLATION")]
+            first = [l for l in out.splitlines() if "violation class=" in l]
+            ok = r.returncode == 1 and viol
+            print("[seeded] %-36s check %s: %s %s" % (name, c, "caught" if ok else "MISSED (exit %d)" % r.returncode,
+                                                      first[0][first[0].find("violation class="):][:110] if first else ""), flush=True)
+            if not ok:
+                missed.append(name)
+        finally:
+            subprocess.run("git checkout -- .", shell=True, cwd=repo)
+            if saved is not None:
+                open(ev, "w").write(saved)
+            import shutil
+            shutil.rmtree(os.path.join(drv.VERIF, "replays", c), ignore_errors=True)
+    print("[seeded] %d missed %s in %.0fs" % (len(missed), missed, time.time() - t0))
+    return 2 if missed else 0
+
+
 def run(what, drv):
+    if what == "seeded":
+        return seeded(drv)
     if what == "valgrind":
         return valgrind(drv)
     if what == "determinism":
